@@ -242,6 +242,13 @@ def run(ctx):
     ctx.floor = 13 if ctx.core_only else 14
     refusal_inventory(ctx)
     wrappers(ctx, ['keys::dkg::part1', 'keys::dkg::part2', 'keys::dkg::part3'])
+    # an honest run hands every participant exactly n-1 packages per round: that, and nothing weaker or stronger, is what the
+    # count checks of part2 / part3 demand (a bound on another quantity refuses honest t == n runs or accepts short ones)
+    from .c08 import count_guard
+    for nm in ("part2", "part3"):
+        g = ctx.anchor(CORE + "keys::dkg::" + nm)
+        if g:
+            count_guard(ctx, g, "package-count==max_signers-1", arg(2), arg(1))
     part3_wiring(ctx)
     helpers(ctx)
     # every valid (n, t) and identifier set: the parameter refusals are exactly the specified ones, and the share /
